@@ -14,7 +14,9 @@ DISCARDING = {"Result::ok", "Result::unwrap_or", "Result::unwrap_or_else", "Resu
               "Result::or", "Result::or_else", "Result::map_or", "Result::map_or_else", "Result::is_ok_and",
               "Result::is_err_and", "Result::iter", "Result::iter_mut", "Result::into_iter",
               "IntoIterator::into_iter", "Result::err", "Result::into_ok", "Iterator::flatten",
-              "Iterator::filter_map", "Result::unwrap_unchecked"}
+              "Iterator::filter_map", "Result::unwrap_unchecked",
+              # future combinators that end the error of the awaited Result
+              "TryFutureExt::or_else", "TryFutureExt::unwrap_or_else", "TryFutureExt::ok", "TryFutureExt::into_future"}
 TESTING = {"Result::is_ok": "ok", "Result::is_err": "err"}
 PANICKING = {"Result::unwrap", "Result::expect", "Result::unwrap_err", "Result::expect_err"}
 
@@ -292,7 +294,7 @@ class ResultFlow:
                         continue
                 if ty is not None and is_result_ty(ty) and not tracked_err(ty):
                     continue
-                if ty is not None and not is_result_ty(ty) and not ty.startswith("&"):
+                if ty is not None and not is_result_ty(ty) and not ty.startswith("&") and not sh.startswith("TryFutureExt::"):
                     continue
                 out.append((b.idx, sh, self.tr.operand(a0), t.line))
         return out
